@@ -6,4 +6,5 @@ cd "$(dirname "$0")"
 export CARGO_NET_OFFLINE=true
 (cd engine/jbkfacts && cargo +nightly build --release --offline 2>&1 | tail -2)
 python3 rules/extract.py lib-all3
+python3 rules/witness.py > /dev/null
 echo "setup done"
